@@ -530,5 +530,39 @@ func buildScenarios() []*scenario {
 			},
 		})
 	}
+	// --- CGGMP21 threshold ECDSA on the dealt 2-of-3 key; auxiliary information (Paillier-Blum and
+	// ring-Pedersen keys) is built from prime FIXTURES through the library's constructors, so no
+	// prime generation happens in the run. The protocol documents that it reads the caller's
+	// reader from several goroutines: no replay / locality / consumption facts (all false), i.e.
+	// only "own stream changes own messages and the joint nonce" (P1), "no nonce or joint value
+	// ever repeats" (P3), per-recipient freshness (P7) and "a starved party never panics" apply.
+	// ~4-8 s per run: position 0 once per check in the quick tier, drawn in the thorough tier.
+	{
+		q := []proto.ID{1, 2, 3}
+		shardsC, err := es.CGGMP21Shards(shards)
+		if err != nil {
+			panic("harness: cggmp21 shards: " + err.Error())
+		}
+		out = append(out, &scenario{
+			name: "cggmp21", family: "cggmp21", weight: 0, parties: q, msgs: defaultMsgs,
+			prepare: func(ctxSeed uint64, msg []byte) (partyBuilder, error) {
+				ctxs, err := proto.Contexts(q, ctxSeed, "cggmp21")
+				if err != nil {
+					return nil, err
+				}
+				return func(id proto.ID, prng io.Reader) (network.Runner[any], error) {
+					return es.CGGMP21Runner(ctxs[id], shardsC[id], msg, prng)
+				}, nil
+			},
+			joint: func(outs map[proto.ID]any, _ []byte) (map[string][]byte, map[string][]byte, error) {
+				sig, err := es.CGGMP21Finish(outs)
+				if err != nil {
+					return nil, nil, fmt.Errorf("aggregating honest partial signatures: %w", err)
+				}
+				return map[string][]byte{"r": sig.R.Bytes()}, nil, nil
+			},
+			encode: func(_ proto.ID, o any) ([]byte, error) { return []byte(fmt.Sprintf("%T", o)), nil },
+		})
+	}
 	return out
 }
